@@ -1,5 +1,6 @@
 HARNESS = "c04"
 STALE_RERUN = True   # operands also re-run as stale external polynomials (see check)
+STALE_LIMIT = 20000  # quick: EVERY case (corpus included) is re-run with stale external operands, not a sample
 LEVEL = "translation_validation"
 TIMEOUT = 3000
 """C04 case generator: pairs (P, Q) in Z[params][main] for resultant / psc / subresultant chains.
@@ -487,6 +488,43 @@ def generate(rng, tier):
             P = pmul(pmul(L, L), rpoly(rng, v, params, m - 2, kind))    # repeated factor: discriminant 0
         if pdeg(P, v) >= 1:
             cases.append("disc %d %s #disc:%s" % (v, ptext(P), kind))
+
+    # ---- 9. operands whose STORED LAYOUT depends on the variable order (seeded change C04-4: external_clean on the wrong
+    #         operand).  The check re-runs every case with VERIF_STALE=1: all operands are external polynomials built under
+    #         the reversed order and every API call of the driver gets at least one operand nobody has touched since.  The
+    #         layout of an operand differs between the two orders exactly when it contains a parameter, so the class pins
+    #         down WHICH operand is order-sensitive (only the second, only the first, both with one shared parameter, both
+    #         with two parameters - nested coefficients are permuted too -, disjoint parameters), for every main variable
+    #         (x0: the default order; x1, x2: orders that are not sorted by index), small degrees in both orders, over Z
+    #         and over Z_p.  Placed last: it does not shift the random stream of the classes above.
+    def order_poly(v, ps, deg):
+        """degree deg in x_v; every listed parameter occurs, the leading or the constant coefficient is parametric"""
+        for _ in range(50):
+            r = rpoly(rng, v, ps, deg, "par" if ps else "int", sparse=rng.choice([0, 0.3]))
+            if all(any(k[u] for k in r) for u in ps) and pdeg(r, v) == deg:
+                return r
+        r = rpoly(rng, v, [], deg, "int", sparse=0)
+        for u in ps:
+            r = padd(r, pmul(pvar(u, rng.choice([1, 2])), pvar(v, rng.choice([0, deg]))))
+        return r
+
+    DEGS = [(1, 1), (2, 1), (1, 2), (2, 2), (3, 2), (2, 3), (3, 1), (1, 3), (3, 3)]
+    for v in range(NV):
+        u1, u2 = [i for i in range(NV) if i != v]
+        for shape, pp, qp in [("second", [], [u1]), ("second", [], [u2]), ("second2", [], [u1, u2]),
+                              ("first", [u1], []), ("first", [u2], []), ("first2", [u1, u2], []),
+                              ("shared", [u1], [u1]), ("shared", [u2], [u2]), ("both2", [u1, u2], [u1, u2]),
+                              ("disjoint", [u1], [u2]), ("disjoint", [u2], [u1])]:
+            for _ in range(2 if quick else 6):
+                m, n = rng.choice(DEGS)
+                P = order_poly(v, pp, m); Q = order_poly(v, qp, n)
+                if rng.random() < 0.3:
+                    M = rng.choice([3, 7, 13, 101, 1000000007])
+                    Pr, Qr = pred_mod(P, M), pred_mod(Q, M)
+                    if pdeg(Pr, v) >= 1 and pdeg(Qr, v) >= 1 and (params_used(Pr, Pr, pp) or not pp) and (params_used(Qr, Qr, qp) or not qp):
+                        cases.append("srp %d %d %s %s #Zp-order-%s-x%d" % (M, v, ptext(P), ptext(Q), shape, v))
+                        continue
+                emit(v, sorted(set(pp + qp)), P, Q, "order-%s-x%d" % (shape, v))
     return cases
 
 
